@@ -61,6 +61,8 @@ def run(ctx):
         import c02
         ctx.guard(c08.keep_only, ctx, lambda: c02.boundaries(ctx, cfg, fs), lambda o: 'byte-length' in o.key or 'width-table' in o.key, 'K.tokenized-as-flag')
         ctx.guard(c08.keep_only, ctx, lambda: c07.table(ctx, cfg, fs), lambda o: 'depth=Less' in o.key or 'depth=Greater' in o.key, 'D.deeper-outcome')
+        import c09
+        ctx.guard(c08.keep_only, ctx, lambda: c09.tokenizer(ctx, cfg, fs), lambda o: 'marker-' in o.key, 'K.tokenized-as-flag')
     ctx.guard(sequential, ctx)
 
 def describe_return(b, i, k, st):
